@@ -64,6 +64,7 @@ def generate(seed, tier="quick"):
     driver = "plugin" if sub(seed, "driver").random() < 0.3 else "inline"
     # the project hides updates unless they are asked for (skip-snapshot-updates-for-now): every session of these histories names its categories
     skip_updates = driver == "plugin" and sub(seed, "skip-updates").random() < 0.35
+    W.sprinkle_uni(prog, sub(seed, "uni"), 0.1)
     return {"program": prog, "driver": driver, "asserts": asserts, "skip_updates": skip_updates, "fmt": draw_fmt(sub(seed, "fmt")), "max_orders": 6 if tier == "quick" else 24}
 
 
